@@ -212,7 +212,56 @@ func ruleI7(p *Prog, r *Report) {
 			}()+" instead of the adjusted index childSlabIndexInfo returned: the child looks at the wrong position")
 		})
 	}
-	r.Floor(R, "child-by-index lookups", 4, n)
+	// (c) what a recursive descent returns is what the level below returned
+	for _, top := range p.TopFuncs() {
+		if p.IsTestFile(top.Pos()) {
+			continue
+		}
+		hasLookup := false
+		eachInstr(top, func(in ssa.Instruction) {
+			if c, ok := in.(*ssa.Call); ok && c.Call.StaticCallee() != nil && c.Call.StaticCallee().Name() == "childSlabIndexInfo" {
+				hasLookup = true
+			}
+		})
+		if !hasLookup {
+			continue
+		}
+		eachInstr(top, func(in ssa.Instruction) {
+			c2, ok := in.(*ssa.Call)
+			if !ok || c2.Call.StaticCallee() != top {
+				return
+			}
+			tup, ok := c2.Type().(*types.Tuple)
+			if !ok {
+				return
+			}
+			n++
+			cons := "descent-returns-leaf-index:" + p.Name(top)
+			var bad *ssa.Return
+			reachFrom(top, in, nil, func(z ssa.Instruction) bool {
+				ret, ok := z.(*ssa.Return)
+				if !ok || bad != nil {
+					return bad != nil
+				}
+				if cl, _ := classifyReturn(ret); cl == retError {
+					return true
+				}
+				for j := 0; j < tup.Len() && j < len(ret.Results); j++ {
+					bt, ok := tup.At(j).Type().Underlying().(*types.Basic)
+					if !ok || bt.Kind() != types.Uint64 {
+						continue
+					}
+					ex, ok := canon(ret.Results[j]).(*ssa.Extract)
+					if !ok || ex.Tuple != ssa.Value(c2) || ex.Index != j {
+						bad = ret
+					}
+				}
+				return true
+			})
+			r.Decide(bad == nil, R, cons, p.InstrPos(in), "the index returned with the slab is the one the recursive call returned", "a recursive descent returns the slab found at the bottom together with an index computed at this level: the index is relative to this level's child subtree, not to the slab that is returned (identical for two levels, wrong from three levels on)")
+		})
+	}
+	r.Floor(R, "child-by-index lookups", 5, n)
 }
 
 // I8 one cursor per level: cursors made while iterating are pushed on a stack.
